@@ -110,3 +110,7 @@ Section RestrictionTie.
        try lia; cbn [andb app flat_map map fst snd apply_row2 fold_right]; rewrite ?app_nil_r; f_equal; f_equal; rsc; field; lra).
   Qed.
 End RestrictionTie.
+
+(* The FMG interpolation macro is regenerated as well (gen_fmg_interpolation, so that a change outside the translator's grammar is
+   noticed), but its equality with InterpDefs.FMG_row is tied by the K-matrix correspondence only: the 16-term tensor identity did not
+   close with ring / field within the time limit of a check. *)
